@@ -8,7 +8,8 @@ CLAIMS = ("R1 in every finaliser table (hash_agg::build_agg_array, hash_agg::bui
           "R3 NULL grouping keys form one group: the group-key extractor maps an is_null row to its dedicated Null value before any type dispatch; "
           "R5 (= C07.R6) partial MIN states are never merged with Option's ordering; "
           "R6 the group tables compare keys with GROUPING semantics: every row comparator an aggregation function of hash_agg.rs calls to decide 'same group' answers true for two NULLs and false for NULL vs non-NULL (evaluated abstractly over the NULL-ness of both operands); a comparator with join semantics (NULL never matches) splits the NULL group into one group per row; "
-          "R7 no aggregate result is a fabricated sentinel: in the aggregate evaluators (hash_agg.rs, morsel_agg.rs) the Option produced by Iterator::min/max/min_by/max_by/reduce over the non-NULL inputs never reaches an array constructor or builder through unwrap_or(<constant>) / unwrap_or_default (MIN/MAX over no rows is NULL, not i64::MAX).")
+          "R7 no aggregate result is a fabricated sentinel: in the aggregate evaluators (hash_agg.rs, morsel_agg.rs) the Option produced by Iterator::min/max/min_by/max_by/reduce over the non-NULL inputs never reaches an array constructor or builder through unwrap_or(<constant>) / unwrap_or_default (MIN/MAX over no rows is NULL, not i64::MAX); "
+          "R8 the morsel group table does not infer slot occupancy from slot content: a never-used slot and the group whose key is NULL in every column (with no aggregates, e.g. GROUP BY k / DISTINCT) have identical content (all-Null key, no accumulator that saw data), so a predicate over (key, accumulators) alone must drop that group or emit a phantom one; occupancy has to be recorded.")
 NOT_DECIDED = "numeric results; that the single batch of an empty global aggregate has exactly one row (a value of aggregate_batches*)."
 
 HA = "physical::operators::hash_agg"
@@ -98,12 +99,16 @@ def run(F, R):
     for g, c in sites:
         # the per-column comparator: the callee itself, or the 4-argument bool function it calls per column
         inner = [x.name for x in F.fam_calls(c.name) if x.name in F.bodies and len(x.args) == 4 and x.fn.local_ty(place_local(x.dest)) == "bool"]
-        target = inner[0] if inner else c.name
         root = F.bodies[g.path].get("root") or g.path
-        if (root, target) in seen6:
+        if (root, c.name) in seen6:
             continue
-        seen6.add((root, target))
-        b = nullpair.behaviour(F, target)
+        seen6.add((root, c.name))
+        b = nullpair.behaviour(F, c.name)
+        target = c.name
+        if b[(True, True)] == "V" and inner:
+            # a wrapper that delegates the NULL decision to its per-column comparator
+            target = inner[0]
+            b = nullpair.behaviour(F, target)
         ok = b[(True, True)] == "true" and b[(True, False)] == "false" and b[(False, True)] == "false"
         R.check(ok, "C21.R6", f"{root.rsplit('::', 1)[-1]}:{target.rsplit('::', 2)[-2]}::{target.rsplit('::', 1)[-1]}", f"group membership is decided by a comparator with (NULL,NULL) -> {b[(True, True)]}, (NULL,x) -> {b[(True, False)]}: NULL keys never equal each other, so every NULL row becomes its own group (SQL: all NULL keys form one group)", g.loc(c.bb), dict(behaviour={f"{k[0]},{k[1]}": v for k, v in b.items()}))
     # ---- R7: sentinel results
@@ -144,3 +149,10 @@ def run(F, R):
         seen7.add(key)
         R.bad("C21.R7", key, f"{fn_.upper()} over no non-NULL input yields a fabricated sentinel (unwrap_or of a constant) instead of NULL: `SELECT {fn_.upper()}(v) FROM t WHERE false` returns i64::MIN / i64::MAX", g.loc(w.bb), dict())
     R.ok("C21.R7", "min/max-results-keep-their-Option", dict(reductions=n7, sentinels=len(seen7)))
+    # ---- R8: occupancy by content
+    R.rule("C21.R8", "K1 inputs of the occupancy predicate", "slot_has_data decides from a recorded occupancy value, not only from (key, accumulators)")
+    sh = F.one("AggregationState::slot_has_data", file="src/physical/morsel_agg.rs")
+    argt = [sh.local_ty(i) for i in range(1, sh.raw["nargs"] + 1)]
+    reads = sorted({(fld, a.rsplit("::", 1)[-1]) for bb, acc, fld, a, line in sh.field_accesses()})
+    content_only = all(("GroupKey" in t or "AccumulatorState" in t) for t in argt) and all(a in ("GroupKey", "AccumulatorState") or a.startswith("AccumulatorState") for f_, a in reads)
+    R.check(not content_only, "C21.R8", "slot_has_data:occupancy-inferred-from-content", "the perfect-hash table tells a used slot from a free one by looking at the slot's key and accumulators only; for GROUP BY without aggregates the all-NULL-key group is indistinguishable from a free slot and is dropped (`SELECT k FROM t GROUP BY k` over Parquet loses the NULL group)", sh.loc(), dict(parameters=argt, fields_read=reads))
